@@ -13,17 +13,6 @@ namespace CtyModel
 namespace D03b
 open Value
 
-/-- `setRules{e}.Less(x, y)` for a compound `e`, written for proof -/
-def compLessB (e : Ty) (x y : Payload) : Bool :=
-  if rawB e x y then false
-  else if y.isNull && !x.isNull then true
-  else if x.isNull then false
-  else if x.isKnown && !y.isKnown then true
-  else if !x.isKnown then false
-  else match hashBytesP e x, hashBytesP e y with
-    | .ok hx, .ok hy => bytesLt hx hy
-    | _, _ => false
-
 theorem lvl_hb_eq (n : Nat) {e : Ty} (hp : e.plain = true) {x : Payload} (wx : x.shaped e = true) :
     (lvl (n + 1)).hb e x = hashBytesP e x := by
   rw [hashBytesP_eq_hashS (lvl n).setHash hp wx]; rfl
